@@ -14,7 +14,10 @@ package harness
 // listing, the bank-facing locked-coins getter).  The exchange's multi-step messages are driven
 // with holds on both parties: payments (create with a target amount / accept / reject /
 // cancel), orders (ask / bid / cancel / FillBids / FillAsks / MarketSettle), commitments
-// (commit / MarketReleaseCommitments / MarketCommitmentSettle).
+// (commit / MarketReleaseCommitments / MarketCommitmentSettle).  Fee payment is driven as whole
+// transactions (`tx`, see execTx): the app's ante handler deducts the base fee from the signer or,
+// through a fee grant, from a granter that carries holds; then the message; then the fee handler
+// sweeps the rest of the fee — with the base fee and the rest at the paying account's boundaries.
 
 import (
 	"context"
@@ -28,8 +31,13 @@ import (
 	"time"
 
 	sdkmath "cosmossdk.io/math"
+	"cosmossdk.io/x/feegrant"
 
+	clienttx "github.com/cosmos/cosmos-sdk/client/tx"
+	"github.com/cosmos/cosmos-sdk/crypto/keys/secp256k1"
 	sdk "github.com/cosmos/cosmos-sdk/types"
+	"github.com/cosmos/cosmos-sdk/types/tx/signing"
+	authsigning "github.com/cosmos/cosmos-sdk/x/auth/signing"
 	sdkerrors "github.com/cosmos/cosmos-sdk/types/errors"
 	authtypes "github.com/cosmos/cosmos-sdk/x/auth/types"
 	vestexported "github.com/cosmos/cosmos-sdk/x/auth/vesting/exported"
@@ -43,6 +51,7 @@ import (
 	stakingtypes "github.com/cosmos/cosmos-sdk/x/staking/types"
 
 	"github.com/provenance-io/provenance/app"
+	"github.com/provenance-io/provenance/testutil/verifhooks"
 	"github.com/provenance-io/provenance/x/exchange"
 	exchangekeeper "github.com/provenance-io/provenance/x/exchange/keeper"
 	"github.com/provenance-io/provenance/x/hold"
@@ -84,6 +93,11 @@ type lockEnv struct {
 	exSrv     exchange.MsgServer
 	accts     []string          // accounts declared in this history, in order
 	kind      map[string]string // declared kind
+	// the fee-payment route of a transaction (C03 "fee payment")
+	sKey       *secp256k1.PrivKey // key of the account S, the signer of fully signed transactions
+	fullAnte   sdk.AnteHandler    // the app's own ante handler (BaseApp.AnteHandler())
+	feeAnte    sdk.AnteHandler    // its fee decorators only: FeeMeterContext + ProvenanceDeductFee
+	feeHandler sdk.FeeHandler     // what app.setFeeHandler installs (MsgFeeInvoker)
 }
 
 var (
@@ -108,6 +122,9 @@ func lockSetup(t *testing.T) *lockEnv {
 		for _, n := range []string{"A", "B", "Q", "V", "C", "ADM"} {
 			e.addr[n] = lockAddr(n)
 		}
+		e.sKey = secp256k1.GenPrivKeyFromSecret([]byte("verif-lock-signer"))
+		e.addr["S"] = sdk.AccAddress(e.sKey.PubKey().Address())
+		e.addr["FEE"] = a.AccountKeeper.GetModuleAccount(ctx, authtypes.FeeCollectorName).GetAddress()
 		e.addr["POOL"] = authtypes.NewModuleAddress(stakingtypes.BondedPoolName)
 		e.addr["GOV"] = authtypes.NewModuleAddress(govtypes.ModuleName)
 		e.addr["QH"] = a.QuarantineKeeper.GetFundsHolder()
@@ -186,6 +203,13 @@ func lockSetup(t *testing.T) *lockEnv {
 		e.govSrv = govkeeper.NewMsgServerImpl(&a.GovKeeper)
 		e.markerSrv = markerkeeper.NewMsgServerImpl(a.MarkerKeeper)
 		e.exSrv = exchangekeeper.NewMsgServer(a.ExchangeKeeper)
+		e.fullAnte = a.BaseApp.AnteHandler()
+		e.feeAnte = sdk.ChainAnteDecorators(verifhooks.NewFeeMeterContextDecorator(),
+			verifhooks.NewProvenanceDeductFeeDecorator(a.AccountKeeper, a.BankKeeper, a.FeeGrantKeeper, a.MsgFeesKeeper))
+		e.feeHandler, err = verifhooks.NewAdditionalMsgFeeHandler(a.AccountKeeper, a.BankKeeper, a.FeeGrantKeeper, a.MsgFeesKeeper, a.GetTxConfig().TxDecoder())
+		if err != nil {
+			t.Fatalf("fee handler: %v", err)
+		}
 		lockE = e
 	})
 	lockE.t = t
@@ -604,6 +628,21 @@ func (e *lockEnv) exec(op string) string {
 			_, err := e.exSrv.MarketWithdraw(ctx, msg)
 			return err
 		})
+	case "floor": // floor <coin> : the msgfees floor gas price (a governance parameter); base fee = floor x gas
+		cs := lockParseCoins(ws[1])
+		if len(cs) != 1 || cs[0].Amount.IsNegative() {
+			return "bad-op"
+		}
+		p := a.MsgFeesKeeper.GetParams(e.ctx)
+		p.FloorGasPrice = cs[0]
+		a.MsgFeesKeeper.SetParams(e.ctx, p)
+		return "ok"
+	case "grant": // grant X P : X lets P pay transaction fees from X's account (unlimited basic allowance)
+		return e.run(func(ctx sdk.Context) error {
+			return a.FeeGrantKeeper.GrantAllowance(ctx, e.addr[ws[1]], e.addr[ws[2]], &feegrant.BasicAllowance{})
+		})
+	case "tx": // tx P gas=<n> fee=<coins> [granter=X] to=T amt=<coins> [mode=full]
+		return e.execTx(ws)
 	case "hold":
 		return e.run(func(ctx sdk.Context) error {
 			return a.HoldKeeper.AddHold(ctx, e.addr[ws[1]], lockParseCoins(ws[2]), "verif")
@@ -773,6 +812,126 @@ func (e *lockEnv) exec(op string) string {
 		})
 	}
 	return "bad-op"
+}
+
+
+// ---------- the fee-payment route of a transaction ----------
+
+func lockTxClass(err error) string {
+	switch {
+	case err == nil:
+		return "ok"
+	case errors.Is(err, sdkerrors.ErrOutOfGas), errors.Is(err, sdkerrors.ErrInvalidGasLimit), errors.Is(err, sdkerrors.ErrTxTooLarge):
+		return "err:gas"
+	case errors.Is(err, feegrant.ErrNoAllowance), strings.Contains(err.Error(), "fee-grant not found"):
+		return "err:nogrant"
+	}
+	return lockClass(err)
+}
+
+// execTx runs ONE transaction the way baseapp.runTx does in deliver mode (baseapp.go:880-1010 of
+// the forked SDK): the ante handler on a branch of the state that is written when it succeeds —
+// so the base fee it deducts stays even when the messages fail —, then the messages through the
+// app's message router and the fee handler (the sweep of the rest of the fee) on a second branch
+// that is written only when all of them succeed.  The transaction carries one bank MsgSend of the
+// signer P and pays its fee itself or through a fee grant of `granter`.  mode=full: signed by the
+// key of S and run through the app's complete ante handler; otherwise unsigned and run through the
+// fee decorators of that chain only (any account can be the payer, any gas amount).
+func (e *lockEnv) execTx(ws []string) string {
+	a := e.app
+	p, ok := e.addr[ws[1]]
+	to, ok2 := e.addr[kvArg(ws, "to")]
+	if !ok || !ok2 {
+		return "bad-op"
+	}
+	full := kvArg(ws, "mode") == "full"
+	if full && ws[1] != "S" {
+		return "bad-op"
+	}
+	cfg := a.GetTxConfig()
+	b := cfg.NewTxBuilder()
+	msg := &banktypes.MsgSend{FromAddress: p.String(), ToAddress: to.String(), Amount: lockParseCoins(kvArg(ws, "amt"))}
+	if err := b.SetMsgs(msg); err != nil {
+		return "bad-op"
+	}
+	fee := lockParseCoins(kvArg(ws, "fee"))
+	if !fee.IsValid() { // the fee of a transaction is a valid sdk.Coins (tx.ValidateBasic)
+		return "bad-op"
+	}
+	b.SetFeeAmount(fee)
+	b.SetGasLimit(lockU64(kvArg(ws, "gas")))
+	if g := kvArg(ws, "granter"); g != "" {
+		ga, ok := e.addr[g]
+		if !ok {
+			return "bad-op"
+		}
+		b.SetFeeGranter(ga)
+	}
+	ante := e.feeAnte
+	if full {
+		ante = e.fullAnte
+		acc := a.AccountKeeper.GetAccount(e.ctx, p)
+		if acc == nil {
+			return "bad-op"
+		}
+		mode := signing.SignMode(cfg.SignModeHandler().DefaultMode())
+		pub := e.sKey.PubKey()
+		seq := acc.GetSequence()
+		if err := b.SetSignatures(signing.SignatureV2{PubKey: pub, Data: &signing.SingleSignatureData{SignMode: mode}, Sequence: seq}); err != nil {
+			return "bad-op"
+		}
+		sd := authsigning.SignerData{Address: p.String(), ChainID: e.ctx.ChainID(), AccountNumber: acc.GetAccountNumber(), Sequence: seq, PubKey: pub}
+		sig, err := clienttx.SignWithPrivKey(e.ctx, mode, sd, b, e.sKey, cfg, seq)
+		if err != nil {
+			return "bad-op"
+		}
+		if err := b.SetSignatures(sig); err != nil {
+			return "bad-op"
+		}
+	}
+	bz, err := cfg.TxEncoder()(b.GetTx())
+	if err != nil {
+		return "bad-op"
+	}
+	tx, err := cfg.TxDecoder()(bz)
+	if err != nil {
+		return "bad-op"
+	}
+	// 1. ante handler on a branch; written when it succeeds
+	anteCtx, writeAnte := e.ctx.CacheContext()
+	anteCtx = anteCtx.WithTxBytes(bz)
+	var newCtx sdk.Context
+	res := Guard(func() string {
+		var err error
+		newCtx, err = ante(anteCtx, tx, false)
+		return lockTxClass(err)
+	})
+	if res != "ok" {
+		return res
+	}
+	writeAnte()
+	// 2. messages + fee handler on a second branch (it keeps the gas meter the ante handler set up)
+	runCtx, writeRun := newCtx.WithMultiStore(e.ctx.MultiStore()).CacheContext()
+	runCtx = runCtx.WithTxBytes(bz)
+	res = Guard(func() string {
+		for _, m := range tx.GetMsgs() {
+			h := a.MsgServiceRouter().Handler(m)
+			if h == nil {
+				return "msgfail err:noroute"
+			}
+			if _, err := h(runCtx, m); err != nil {
+				return "msgfail " + lockTxClass(err)
+			}
+		}
+		if _, _, err := e.feeHandler(runCtx, false); err != nil {
+			return "sweepfail " + lockTxClass(err)
+		}
+		return "done"
+	})
+	if res == "done" {
+		writeRun()
+	}
+	return "ok " + res
 }
 
 // ---------- generator ----------
@@ -1041,7 +1200,7 @@ func lockHistory(e *lockEnv, rng *RNG, out *Out, h int) {
 	denoms := []string{bond, "apple", lockRDenom}
 	t0 := int64(1000)
 	g.emit(fmt.Sprintf("time %d", t0))
-	for _, n := range []string{"POOL", "GOV"} {
+	for _, n := range []string{"POOL", "GOV", "FEE"} {
 		g.emit("acct " + n + " module")
 	}
 	g.emit("acct MK marker")
@@ -1052,37 +1211,48 @@ func lockHistory(e *lockEnv, rng *RNG, out *Out, h int) {
 	g.emit("acct A base" + ax["A"])
 	g.emit("acct B base" + ax["B"])
 	g.emit("acct Q base quarantine=1" + ax["Q"])
+	g.emit("acct S base") // the key-derived account that signs the fully signed transactions
+	// bond-denom amounts of a "rich" history are 4000 times larger: a fully signed transaction needs
+	// ~10^5 gas, and its base fee is floor gas price x gas of the bond denom
+	mul := int64(1)
+	if rng.Chance(45) {
+		mul = 4000
+		out.Count("history:rich")
+	}
 	// vesting accounts: delayed V (bond denom) and continuous C (bond + apple), schedules around now
-	vov := int64(100 + rng.Intn(900))
+	vov := int64(100+rng.Intn(900)) * mul
 	vend := t0 + int64(rng.Intn(4)*500) // may already be over (end == now)
 	g.emit(fmt.Sprintf("acct V delayed ov=%d%s end=%d%s", vov, bond, vend, ax["V"]))
-	cov1, cov2 := int64(100+rng.Intn(900)), int64(50+rng.Intn(300))
+	cov1, cov2 := int64(100+rng.Intn(900))*mul, int64(50+rng.Intn(300))
 	cst := t0 - int64(rng.Intn(3)*400) + int64(rng.Intn(2)*300)
 	cen := cst + int64(1+rng.Intn(2000))
 	// "apple" < bond denom ("stake"/"nhash") alphabetically? keep ov sorted by building through sdk.NewCoins
 	cov := sdk.NewCoins(sdk.NewInt64Coin(bond, cov1), sdk.NewInt64Coin("apple", cov2))
 	g.emit(fmt.Sprintf("acct C cont ov=%s start=%d end=%d%s", lockCoinsStr(cov), cst, cen, ax["C"]))
-	for _, n := range []string{"POOL", "GOV", "MK", "MKT", "QH", "ADM"} {
+	for _, n := range []string{"POOL", "GOV", "FEE", "MK", "MKT", "QH", "ADM"} {
 		g.emit(fmt.Sprintf("have %s %s", n, lockCoinsStr(e.app.BankKeeper.GetAllBalances(e.ctx, e.addr[n]))))
 	}
+	// the floor gas price (msgfees parameter): the base fee of a transaction is floor x gas
+	floor := int64(Pick(rng, []int{1, 1, 1, 1, 1, 1, 1, 2, 3, 0}))
+	g.emit(fmt.Sprintf("floor %d%s", floor, bond))
 	fundCoins := func(lo int) string {
-		return lockCoinsStr(sdk.NewCoins(sdk.NewInt64Coin(bond, int64(lo+rng.Intn(1500))), sdk.NewInt64Coin("apple", int64(lo/2+rng.Intn(700))), sdk.NewInt64Coin(lockRDenom, int64(10+rng.Intn(300)))))
+		return lockCoinsStr(sdk.NewCoins(sdk.NewInt64Coin(bond, int64(lo+rng.Intn(1500))*mul), sdk.NewInt64Coin("apple", int64(lo/2+rng.Intn(700))), sdk.NewInt64Coin(lockRDenom, int64(10+rng.Intn(300)))))
 	}
-	for _, n := range []string{"A", "B", "MK", "MKT", "QH"} {
+	for _, n := range []string{"A", "B", "S", "MK", "MKT", "QH"} {
 		g.emit("fund " + n + " " + fundCoins(100))
 	}
 	if rng.Chance(60) {
 		g.emit("fund Q " + fundCoins(100))
 	}
-	g.emit(fmt.Sprintf("fund V %s", lockCoinsStr(sdk.NewCoins(sdk.NewInt64Coin(bond, vov+int64(rng.Intn(400))), sdk.NewInt64Coin(lockRDenom, int64(10+rng.Intn(100)))))))
-	g.emit(fmt.Sprintf("fund C %s", lockCoinsStr(sdk.NewCoins(sdk.NewInt64Coin(bond, cov1+int64(rng.Intn(400))), sdk.NewInt64Coin("apple", cov2+int64(rng.Intn(200))), sdk.NewInt64Coin(lockRDenom, int64(10+rng.Intn(100)))))))
+	g.emit(fmt.Sprintf("fund V %s", lockCoinsStr(sdk.NewCoins(sdk.NewInt64Coin(bond, vov+int64(rng.Intn(400))*mul), sdk.NewInt64Coin(lockRDenom, int64(10+rng.Intn(100)))))))
+	g.emit(fmt.Sprintf("fund C %s", lockCoinsStr(sdk.NewCoins(sdk.NewInt64Coin(bond, cov1+int64(rng.Intn(400))*mul), sdk.NewInt64Coin("apple", cov2+int64(rng.Intn(200))), sdk.NewInt64Coin(lockRDenom, int64(10+rng.Intn(100)))))))
 	if rng.Chance(40) {
 		g.emit(fmt.Sprintf("fund POOL %s", lockCoinsStr(sdk.NewCoins(sdk.NewInt64Coin("apple", int64(1+rng.Intn(300)))))))
 	}
 	g.emit("dump")
 
-	holders := []string{"A", "B", "V", "C", "MK", "MKT", "QH", "POOL"}
-	users := []string{"A", "B", "V", "C"}
+	holders := []string{"A", "B", "V", "C", "S", "MK", "MKT", "QH", "POOL"}
+	users := []string{"A", "B", "V", "C", "S"}
 	placeHold := func(n string) {
 		var cs sdk.Coins
 		for _, d := range denoms {
@@ -1496,9 +1666,152 @@ func lockHistory(e *lockEnv, rng *RNG, out *Out, h int) {
 			g.emit("dump")
 		}
 	}
+	// ---- transactions: the fee-payment route (ante handler, fee grants, the sweep of the rest) ----
+	// fee grants: a granter (user, vesting or marker account, often one that carries a hold)
+	// lets a grantee pay its transaction fees from the granter's account
+	type lockGrant struct{ granter, grantee string }
+	var grants []lockGrant
+	payers := []string{"A", "B", "V", "C", "Q", "S"}
+	granters := []string{"A", "B", "V", "C", "S", "MK"}
+	addGrant := func() {
+		gr, _ := pickSrc(granters, []string{bond})
+		ge := Pick(rng, payers)
+		if rng.Chance(40) {
+			ge = "S"
+		}
+		if ge == gr {
+			return
+		}
+		if g.emit(fmt.Sprintf("grant %s %s", gr, ge)) == "ok" {
+			grants = append(grants, lockGrant{gr, ge})
+		}
+	}
+	for i := rng.Intn(4); i > 0; i-- {
+		addGrant()
+	}
+	// lockTxGasSafe: enough gas for the complete ante handler, the message and the fee handler of a
+	// fully signed transaction (measured: ~10^5 with 20-byte addresses, 10 more per byte of the tx)
+	const lockTxGasSafe = 250_000
+	const lockTxGasMax = 4_000_000 // antewrapper.TxGasLimitDecorator
+	txStep := func() {
+		p := Pick(rng, payers)
+		if rng.Chance(35) {
+			p = "S"
+		}
+		granter := ""
+		if rng.Chance(60) {
+			var mine []string
+			for _, gt := range grants {
+				if gt.grantee == p {
+					mine = append(mine, gt.granter)
+				}
+			}
+			switch {
+			case len(mine) > 0:
+				granter = Pick(rng, mine)
+			case rng.Chance(60):
+				addGrant()
+				if n := len(grants); n > 0 && grants[n-1].grantee == p {
+					granter = grants[n-1].granter
+				}
+			}
+		}
+		if granter == "" && rng.Chance(6) { // nobody granted this (or the signer names itself)
+			granter = Pick(rng, append([]string{p}, granters...))
+		}
+		payer := p
+		if granter != "" {
+			payer = granter
+			out.Count("tx:granter:" + g.e.kind[granter])
+		} else {
+			out.Count("tx:self:" + g.e.kind[p])
+		}
+		full := p == "S" && mul > 1 && rng.Chance(75)
+		// the base fee (floor x gas, deducted by the ante handler) at the payer's boundary
+		x := g.amount(payer, bond)
+		gas := x
+		if floor > 1 {
+			gas = x.QuoRaw(floor)
+			if rng.Bool() {
+				gas = gas.AddRaw(1)
+			}
+		}
+		if floor == 0 {
+			gas = sdkmath.NewInt(int64(1 + rng.Intn(100000)))
+		}
+		if full {
+			out.Count("tx:full")
+			if gas.LT(sdkmath.NewInt(lockTxGasSafe)) {
+				gas = sdkmath.NewInt(int64(lockTxGasSafe + rng.Intn(2000)))
+				out.Count("tx:full:gas-raised")
+			}
+			if gas.GT(sdkmath.NewInt(lockTxGasMax)) {
+				gas = sdkmath.NewInt(lockTxGasMax)
+				out.Count("tx:full:gas-capped")
+			}
+		} else {
+			out.Count("tx:feeonly")
+		}
+		if !gas.IsPositive() || !gas.IsUint64() {
+			gas = sdkmath.OneInt()
+		}
+		if rng.Chance(2) {
+			gas = sdkmath.ZeroInt()
+		}
+		base := gas.MulRaw(floor)
+		// the rest of the fee (swept by the fee handler after the message): nothing, the bond denom at
+		// what the base fee left of the payer's boundary, another denom at its boundary, or both
+		fee := sdk.Coins{}
+		if base.IsPositive() {
+			fee = fee.Add(sdk.NewCoin(bond, base))
+		}
+		kx := rng.Intn(100)
+		if kx >= 35 && kx < 60 || kx >= 85 {
+			rem := g.bal(payer, bond).Sub(g.held(payer, bond)).Sub(g.unv(payer, bond)).Sub(base).AddRaw(int64(rng.Intn(3) - 1))
+			if !rem.IsPositive() {
+				rem = sdkmath.NewInt(int64(1 + rng.Intn(3)))
+			}
+			fee = fee.Add(sdk.NewCoin(bond, rem))
+			out.Count("tx:rest:bond")
+		}
+		if kx >= 60 {
+			fee = fee.Add(sdk.NewCoin("apple", g.amount(payer, "apple")))
+			out.Count("tx:rest:apple")
+		}
+		if rng.Chance(4) && base.IsPositive() { // malformed: the stated fee does not cover the base fee
+			fee = sdk.NewCoins(sdk.NewCoin("apple", sdkmath.NewInt(int64(1+rng.Intn(5)))))
+			if rng.Bool() {
+				fee = sdk.NewCoins(sdk.NewCoin(bond, base.SubRaw(1)))
+			}
+			out.Count("tx:fee-below-base")
+		}
+		// the message of the transaction: a bank send of the signer
+		to := Pick(rng, []string{"A", "B", "C", "Q", "MKT", "S"})
+		if to == p {
+			to = "ADM"
+		}
+		d := Pick(rng, plain)
+		amt := sdkmath.NewInt(int64(1 + rng.Intn(20)))
+		if rng.Chance(35) {
+			amt = g.amount(p, d)
+		}
+		op := fmt.Sprintf("tx %s gas=%s fee=%s", p, gas, lockCoinsStr(fee))
+		if granter != "" {
+			op += " granter=" + granter
+		}
+		op += fmt.Sprintf(" to=%s amt=%s%s", to, amt, d)
+		if full {
+			op += " mode=full"
+		}
+		if g.emit(op) == "ok done" && to == "Q" {
+			qsenders = append(qsenders, p)
+		}
+	}
 	steps := 11 + rng.Intn(15)
 	for s := 0; s < steps; s++ {
-		switch k := rng.Intn(127); {
+		switch k := rng.Intn(141); {
+		case k >= 127:
+			txStep()
 		case k >= 100:
 			exchangeStep(s)
 		case k < 16: // bank MsgSend
